@@ -299,6 +299,17 @@ Proof.
   destruct (N.eqb k 2).
   { injection H as <- <-. repeat split; try lia. unfold upd_log, upd_script, w_wire. rewrite takeN_0. now rewrite app_nil_r. }
   destruct (N.eqb k 3); [injection H as <- <-; repeat split|].
+  assert (L1 : 1 <= lenN bs) by lia.
+  destruct (N.eqb k 4).
+  { unfold slow_write in H. cbv zeta in H. injection H as <- <-.
+    match goal with |- context [broker_feed ?x ?a] => pose proof (broker_feed_ghost x a) as [G1 [G2 G3]]; pose proof (broker_feed_sess x a) as G4 end.
+    split; [rewrite G4; reflexivity|]. split; [rewrite G2; reflexivity|]. split; [rewrite G3; reflexivity|].
+    split; [rewrite G1; reflexivity|exact L1]. }
+  destruct (N.eqb k 5).
+  { unfold slow_write in H. cbv zeta in H. injection H as <- <-.
+    match goal with |- context [broker_feed ?x ?a] => pose proof (broker_feed_ghost x a) as [G1 [G2 G3]]; pose proof (broker_feed_sess x a) as G4 end.
+    split; [rewrite G4; reflexivity|]. split; [rewrite G2; reflexivity|]. split; [rewrite G3; reflexivity|].
+    split; [rewrite G1; reflexivity|apply N.le_refl]. }
   cbv zeta in H. injection H as <- <-.
   match goal with |- context [broker_feed ?x ?a] => pose proof (broker_feed_ghost x a) as [G1 [G2 G3]]; pose proof (broker_feed_sess x a) as G4 end.
   unfold upd_wire, upd_log, upd_script in *. cbn [w_wire w_live w_poison w_sess] in *.
